@@ -26,16 +26,6 @@ contract(
     requires=["self.temp_root_node is not None"], ensures=["result == self.temp_root_node"], returns="Element | None",
     modifies=[], pure=True, trusted=True,
 )
-contract(
-    "ext:Element.__getitem__",
-    types={"__params__": ["self", "key"], "self": "Element", "key": "str"},
-    requires=["key == 'classes'"], ensures=[], returns="list[str]", modifies=[], pure=True, trusted=True,
-)
-contract(
-    "ext:Element.__item_extend__",
-    types={"__params__": ["self", "key", "value"], "self": "Element", "key": "str", "value": "list[str]"},
-    requires=["key == 'classes'"], ensures=[], returns="None", modifies=[], trusted=True,
-)
 # generate_heading_target: registers names / the slug (C10's functions) and may append ONE warning node to the current node
 contract(
     f"{M}:DocutilsRenderer.generate_heading_target",
